@@ -63,6 +63,17 @@ def main(tier, seed):
                 if op == "floor" and a[1] == 0:
                     continue   # floor of NaN divides by zero in BigNum: outside the property, unreachable (callers test is_pos first)
                 ops.append("num %s %s %s" % (op, enc_rat(a), enc_rat((1, 1))))
+        # operands handed to from_big_num with a NEGATIVE denominator (any gcd sign Euclid may produce): the
+        # constructor must move the sign to the numerator (seeded change C06-optimize-skips-when-gcd-one)
+        for _ in range(n // 6):
+            a = rand_rat(rng, 2, nan_p=0.0); b = rand_rat(rng, 2)
+            a = (a[0], -a[1])
+            if rng.random() < 0.5:
+                a = (rng.choice([1, 2, 3, 4, 5, 7, -4, -7, 9]), -rng.choice([1, 2, 3, 5, 8, 9]))      # small coprime pairs
+            dist["negative_denominator"] = dist.get("negative_denominator", 0) + 1
+            ops.append("num id %s %s" % (enc_rat(a), enc_rat((1, 1))))
+            ops.append("num %s %s %s" % (rng.choice(["add", "mul"]), enc_rat(a), enc_rat(b)))
+            ops.append("num %s %s %s" % (rng.choice(["neg", "flip"]), enc_rat(a), enc_rat((1, 1))))
         impl = run_stream(rep, ops, lambda o: o, "num-ops")
         for o, a in zip(ops, impl):
             if "N=0" in a and "/" in dec_text(a.split(" ")[0][2:]) if a.startswith("S=") else False:
